@@ -9,7 +9,10 @@ const char *verif_rule =
     "tape -> 1..2 UDP client sessions (own scripted peer each) with ack_timeout in [1.000,8.000], ack_random_factor in [1.000,3.000], "
     "max_retransmit 1..6 (the API ignores 0), libcoap PRNG seeded from the tape; 1..4 CON messages (GET requests or empty CON pings) submitted at generated times; "
     "per wire datagram a fate (deliver / drop / duplicate / delay up to 2x timeout); per copy received the peer answers ACK / RST / nothing / "
-    "ACK on the other session (same mid), each with its own delay. The world sleeps exactly as long as coap_io_prepare_epoll() reports. "
+    "ACK on the other session (same mid), each with its own delay; in about a quarter of the cases each (read from the end of the tape) the application "
+    "declares one session disconnected at a generated time (its messages end with one NACK(NOT_DELIVERABLE) each) and/or one copy of a request is answered by "
+    "a separate NON response instead of an ACK (libcoap removes the request by token; only its schedule up to there is judged) - the messages of the other "
+    "session keep their schedule. The world sleeps exactly as long as coap_io_prepare_epoll() reports. "
     "Oracle per accepted CON: copies byte-identical; T=t1-t0 within [ACK_TIMEOUT, ACK_TIMEOUT*ACK_RANDOM_FACTOR] up to the Q.6 fixed point "
     "representation ((2*AT+ARF+2)/128 s); gaps exactly T*2^k; every retransmission due strictly before the ACK/RST delivery happened and none after; "
     "exactly one outcome (ACK: no NACK call with the PDU; RST: one NACK(RST); none: one NACK(TOO_MANY_RETRIES) after max_retransmit retransmissions); "
@@ -34,6 +37,10 @@ struct MsgRec {
   int nacks_with_pdu = 0, nacks_null = 0;
   int nack_reason = -1;
   uint64_t nack_t = 0;
+  std::vector<uint8_t> token;
+  int order = -1;            // index of the submission
+  uint64_t cancel_t = INF;   // the application declared the session of the message disconnected
+  uint64_t resp_t = INF;     // a (separate, non-piggybacked) response with the token of the request was delivered
 };
 
 struct SessRec {
@@ -153,6 +160,9 @@ int verif_case(const uint8_t *tape, size_t tlen, Info *info) {
     submits.push_back(s);
   }
   uint32_t maxdelay = 2 * cs.sess[0].at_ms;
+  int cancel_which = -1, resp_sess = -1;
+  uint32_t cancel_at = 0, resp_idx = 0, resp_delay = 0;
+  bool resp_sent = false;
   if (sweep) {
     for (unsigned i = 0; i < 10; i++) if (sweep_mask & (1u << i)) faults[i].fate = DROP;
   } else {
@@ -168,6 +178,15 @@ int verif_case(const uint8_t *tape, size_t tlen, Info *info) {
       r.action = (int)t.pick({5, 3, 1, 1});
       r.delay = t.pick({3, 1, 1}) == 0 ? 0 : t.range(1, maxdelay);
     }
+    // the application declares one session disconnected while the messages of the others share the send queue.  Read from the END of
+    // the tape (backwards): the plans above are longer than most generated tapes, and earlier tapes keep the meaning of their plans
+    std::vector<uint8_t> rev(tape, tape + tlen);
+    std::reverse(rev.begin(), rev.end());
+    Tape tb(rev.data(), rev.size());
+    if (tb.chance(70)) { cancel_which = (int)tb.range(0, nmsg - 1); cancel_at = tb.pick({1, 1}) ? tb.range(1, 4000) : tb.range(4000, 60000); }
+    // one copy of a request is answered with the response itself (NON 2.05, no ACK): libcoap then takes the request out of the send
+    // queue by token (coap_cancel_all_messages), again with the messages of the others around it
+    if (tb.chance(70)) { resp_sess = (int)tb.range(0, nsess - 1); resp_idx = tb.range(0, 3); resp_delay = tb.pick({1, 1}) ? tb.range(1, 3000) : 0; }
   }
   bool lossy = false;
   w.fault = [&](const Datagram &, unsigned idx) {
@@ -182,6 +201,11 @@ int verif_case(const uint8_t *tape, size_t tlen, Info *info) {
       SessRec &sr = cs.sess[i];
       ReplyPlan rp = sr.rx_count < replies[i].size() ? replies[i][sr.rx_count] : ReplyPlan{0, 0};
       sr.rx_count++;
+      if ((int)i == resp_sess && sr.rx_count - 1 == resp_idx && m.code != 0) {
+        resp_sent = true;
+        ww.peer_send(&p, d.src, simh::response(1, 0x45, (uint16_t)(0x7000 + sr.rx_count), m.token, {'o', 'k'}), resp_delay);
+        return;
+      }
       if (rp.action == 1) return;
       if (rp.action == 3 && nsess > 1) {
         // the *other* peer acknowledges this mid on its own session: must have no effect on this message
@@ -195,8 +219,14 @@ int verif_case(const uint8_t *tape, size_t tlen, Info *info) {
       ww.peer_send(&p, d.src, rp.action == 2 ? simh::rst(m.mid) : simh::ack(m.mid), rp.delay);
     };
   }
-  for (auto &s : submits) {
-    w.at(w.now + s.at, [&, s]() {
+  std::vector<uint8_t> last_token;
+  // a UDP client session that was declared disconnected has no socket any more (and libcoap asserts on a later send): the application
+  // of this harness does not use it again
+  std::vector<char> gone(nsess, 0);
+  for (size_t si = 0; si < submits.size(); si++) {
+    const Submit s = submits[si];
+    w.at(w.now + s.at, [&, s, si]() {
+      if (gone[(size_t)s.sess]) { w.note("submission skipped: session was disconnected"); return; }
       SessRec &sr = cs.sess[s.sess];
       coap_mid_t mid;
       if (s.ping) mid = coap_session_send_ping(sr.s);
@@ -207,11 +237,14 @@ int verif_case(const uint8_t *tape, size_t tlen, Info *info) {
         size_t tl;
         coap_session_new_token(sr.s, &tl, tok);
         coap_add_token(pdu, tl, tok);
+        last_token.assign(tok, tok + tl);
         coap_add_option(pdu, COAP_OPTION_URI_PATH, 4, (const uint8_t *)"test");
         mid = coap_send(sr.s, pdu);
       }
       if (mid == COAP_INVALID_MID) { w.note("submit refused"); return; }
       MsgRec m;
+      if (!s.ping) m.token = last_token;
+      m.order = (int)si;
       m.sess = s.sess;
       m.mid = (uint16_t)mid;
       m.ping = s.ping;
@@ -219,6 +252,15 @@ int verif_case(const uint8_t *tape, size_t tlen, Info *info) {
       cs.msgs.push_back(m);
     });
   }
+  if (cancel_which >= 0) w.at(w.now + cancel_at, [&]() {
+    // the application declares the session of that submission disconnected: its messages in flight end with one NACK each, the messages
+    // of the other sessions in the same send queue keep their schedule
+    int sess = submits[(size_t)cancel_which].sess;
+    for (auto &m : cs.msgs) if (m.sess == sess && m.cancel_t == INF) m.cancel_t = w.now;
+    w.note("application: coap_session_disconnected(session " + std::to_string(sess) + ")");
+    gone[(size_t)sess] = 1;
+    coap_session_disconnected(cs.sess[(size_t)sess].s, COAP_NACK_NOT_DELIVERABLE);
+  });
   bool quiet = w.run(w.now + 40000000ull, 30000);
   int verdict = HELD;
   // ---- collect per-message facts from the trace ----
@@ -240,7 +282,17 @@ int verif_case(const uint8_t *tape, size_t tlen, Info *info) {
       }
       if (!found) { info->fail("libcoap transmitted a CON (mid %u) that the application never submitted", m.mid); verdict = VIOLATION; break; }
     } else if (e.kind == EV_DELIVER && !e.dst.is_any()) {
-      if (!simh::parse(e.data, &m) || (m.type != 2 && m.type != 3)) continue;
+      if (!simh::parse(e.data, &m)) continue;
+      if (m.type == 1 && m.code == 0x45) {
+        for (auto &r : cs.msgs) {
+          if (cs.sess[r.sess].peer->addr == e.src && !r.ping && r.token == m.token && !r.tx.empty() && e.t >= r.tx[0] && r.resp_t == INF) {
+            Addr loc = Addr::from_coap(coap_session_get_addr_local(cs.sess[r.sess].s));
+            if (loc == e.dst) r.resp_t = e.t;
+          }
+        }
+        continue;
+      }
+      if (m.type != 2 && m.type != 3) continue;
       for (auto &r : cs.msgs) {
         if (cs.sess[r.sess].peer->addr == e.src && r.mid == m.mid && !r.tx.empty() && e.t >= r.tx[0] && r.ack_t == INF) {
           // delivered to this session's socket?
@@ -250,6 +302,7 @@ int verif_case(const uint8_t *tape, size_t tlen, Info *info) {
       }
     }
   }
+  for (auto &r : cs.msgs) if (r.cancel_t < r.ack_t && !r.tx.empty()) { r.ack_t = r.cancel_t; r.ack_type = 4; info->label("session-disconnected-by-application"); }
   bool any_retx = false;
   std::string why;
   for (auto &r : cs.msgs) {
@@ -262,6 +315,8 @@ int verif_case(const uint8_t *tape, size_t tlen, Info *info) {
     char id[64];
     snprintf(id, sizeof id, "sess %d mid %u%s", r.sess, r.mid, r.ping ? " (ping)" : "");
     if (r.tx.empty()) {
+      // held back by NSTART and still waiting when the application declared the session disconnected: reported by its one NACK
+      if (r.cancel_t != INF && r.nacks_with_pdu == 1 && r.nack_reason == COAP_NACK_NOT_DELIVERABLE) { info->label("held-message-nacked-at-disconnect"); continue; }
       if (quiet) { info->fail("%s: accepted CON was never transmitted", id); verdict = VIOLATION; }
       continue;
     }
@@ -269,7 +324,11 @@ int verif_case(const uint8_t *tape, size_t tlen, Info *info) {
     size_t n = r.tx.size() - 1;
     if (n) any_retx = true;
     uint64_t t0 = r.tx[0], a = r.ack_t;
-    for (size_t k = 1; k <= n; k++) if (r.tx[k] > a) { info->fail("%s: transmitted at %llu after its %s was delivered at %llu", id, (unsigned long long)r.tx[k], r.ack_type == 2 ? "ACK" : "RST", (unsigned long long)a); verdict = VIOLATION; }
+    // the response arrived before any ACK/RST/disconnect: libcoap stops retransmitting the request (RFC 7252 5.2.2 allows that, the
+    // property does not ask for it), so only the schedule up to there is judged for this message - the point is what happens to the others
+    bool by_response = r.resp_t < a;
+    if (by_response) info->label("request-ended-by-separate-response");
+    for (size_t k = 1; k <= n && !by_response; k++) if (r.tx[k] > a) { info->fail("%s: transmitted at %llu after its %s was delivered at %llu", id, (unsigned long long)r.tx[k], r.ack_type == 2 ? "ACK" : "RST", (unsigned long long)a); verdict = VIOLATION; }
     if (verdict != HELD) break;
     if (n > sr.max_rt) { info->fail("%s: %zu retransmissions, MAX_RETRANSMIT is %u", id, n, sr.max_rt); verdict = VIOLATION; break; }
     uint64_t T = 0;
@@ -284,6 +343,7 @@ int verif_case(const uint8_t *tape, size_t tlen, Info *info) {
       }
       if (verdict != HELD) break;
     }
+    if (by_response) continue;
     uint64_t g = INF;  // give-up instant
     if (Tknown) {
       // every retransmission due strictly before the ACK/RST must have happened
@@ -314,9 +374,13 @@ int verif_case(const uint8_t *tape, size_t tlen, Info *info) {
     } else before = true;
     if (tie) { info->label("tie:ack-at-deadline"); continue; }
     if (before) {
+      // a request whose message was acknowledged (empty ACK) is still waiting for its response: when the application later declares the
+      // session disconnected libcoap tells it so with NACK(NOT_DELIVERABLE) - about the request, not about the message layer
+      if (r.ack_type == 2 && r.nacks_with_pdu == 1 && r.nack_reason == COAP_NACK_NOT_DELIVERABLE && r.cancel_t != INF && r.nack_t >= r.cancel_t) { info->label("acked-request-nacked-at-disconnect"); continue; }
       if (r.ack_type == 2 && r.nacks_with_pdu != 0) { info->fail("%s: completed by ACK at %llu but a NACK (reason %d) was also reported", id, (unsigned long long)a, r.nack_reason); verdict = VIOLATION; break; }
+      if (r.ack_type == 4 && (r.nacks_with_pdu != 1 || r.nack_reason != COAP_NACK_NOT_DELIVERABLE)) { info->fail("%s: session declared disconnected at %llu but NACK(NOT_DELIVERABLE) calls with PDU = %d (reason %d)", id, (unsigned long long)a, r.nacks_with_pdu, r.nack_reason); verdict = VIOLATION; break; }
       if (r.ack_type == 3 && (r.nacks_with_pdu != 1 || r.nack_reason != COAP_NACK_RST)) { info->fail("%s: RST delivered at %llu but NACK(RST) calls with PDU = %d (reason %d)", id, (unsigned long long)a, r.nacks_with_pdu, r.nack_reason); verdict = VIOLATION; break; }
-      info->label(r.ack_type == 2 ? (n ? "outcome:ack-after-retransmit" : "outcome:ack-first-copy") : "outcome:rst");
+      info->label(r.ack_type == 2 ? (n ? "outcome:ack-after-retransmit" : "outcome:ack-first-copy") : r.ack_type == 4 ? "outcome:session-disconnected" : "outcome:rst");
     } else {
       if (r.nacks_with_pdu != 1 || r.nack_reason != COAP_NACK_TOO_MANY_RETRIES) { info->fail("%s: gave up without exactly one NACK(TOO_MANY_RETRIES): %d call(s), reason %d", id, r.nacks_with_pdu, r.nack_reason); verdict = VIOLATION; break; }
       if (Tknown && r.nack_t != g) { info->fail("%s: gave up at %llu, schedule says %llu", id, (unsigned long long)r.nack_t, (unsigned long long)g); verdict = VIOLATION; break; }
@@ -342,7 +406,7 @@ int verif_case(const uint8_t *tape, size_t tlen, Info *info) {
       }
     }
   }
-  if (verdict == HELD && cs.unexpected_response) { info->fail("response handler called although the peer never sent a response"); verdict = VIOLATION; }
+  if (verdict == HELD && cs.unexpected_response && !resp_sent) { info->fail("response handler called although the peer never sent a response"); verdict = VIOLATION; }
   if (!quiet || w.hit_cap) info->inconclusive = true;
   info->nontrivial = any_retx && lossy;
   if (cs.msgs.size() >= 2) info->label("several-messages");
